@@ -7,13 +7,14 @@ From Coq Require Import String List ZArith QArith Qabs Bool.
 From Flocq Require Import Core.
 From Flocq.IEEE754 Require Import BinarySingleNaN Binary Bits.
 From TT Require Import Base.Outcome Base.Str Base.F64 Base.GoParse Base.Verdict
-     Trackaddict.Units Trackaddict.Columns.
+     Trackaddict.Units Trackaddict.Columns Trackaddict.Model Run.Ta_run.
 Import ListNotations.
 Local Open Scope Z_scope.
 
 (* impl observation: class 0 = value stored (bits), 1 = decoder error, 2 = panic, 3 = timeout,
    4 = field absent (nil pointer) *)
-Record case := mkCase { c_hdr : list N; c_cell : list N; c_class : nat; c_bits : Z }.
+Record case1 := mkCase { c_hdr : list N; c_cell : list N; c_class : nat; c_bits : Z }.
+Inductive case := One (c : case1) | Mixed (c : Ta_run.case).
 
 (* exact value of a finite binary64 as a rational *)
 Definition q_of_f64 (a : f64) : option Q :=
@@ -38,7 +39,7 @@ Definition true_convs (cs : list conv) (x : Q) : Q := fold_left (fun v c => true
 Definition within_precision (impl truth : Q) : bool :=
   Qle_bool (Qabs (impl - truth)) ((1 # 100000) * Qabs truth + (1 # 1000000000)).
 
-Definition check_case (c : case) : verdict :=
+Definition check_one (c : case1) : verdict :=
   let hdr := s_of_bytes (c_hdr c) in
   let cell := s_of_bytes (c_cell c) in
   match col_of_header hdr with
@@ -64,3 +65,8 @@ Definition check_case (c : case) : verdict :=
     end
   | _ => VO
   end.
+
+(* mixed layouts: one column per quantity, imperial or metric at random, in random order,
+   decoded by the full decoder model; every stored field must agree *)
+Definition check_case (c : case) : verdict :=
+  match c with One c1 => check_one c1 | Mixed c2 => Ta_run.check c2 end.
